@@ -220,10 +220,10 @@ def check(pid, tier):
     # ---- report
     print("check %s tier=%s jobs=%d build=%.0fs wall=%.0fs states=%s transitions=%s evaluations=%s exhaustive=%s" % (
         pid, tier, len(jobs), t_build, time.time() - t0, cov.get("states"), cov.get("transitions"), cov.get("evaluations"), exhaustive))
-    for h, path in seen_known:
-        print("KNOWN-FINDING: property=%s %s [key=%s witness=%s]" % (pid, h.get("what", ""), h["key"], os.path.relpath(path, HERE)))
     for key, path in new:
         print("VIOLATION property=%s replay=%s key=%s" % (pid, path, key))
+    for h, path in seen_known:
+        print("KNOWN-FINDING: property=%s %s [key=%s witness=%s]" % (pid, h.get("what", ""), h["key"], os.path.relpath(path, HERE)))
     return 1 if new else 0
 
 
@@ -306,6 +306,8 @@ def manifest():
 
 
 def main():
+    import signal
+    signal.signal(signal.SIGPIPE, signal.SIG_DFL)
     a = sys.argv[1:]
     if not a:
         print(__doc__)
